@@ -7,7 +7,11 @@ from vlib import common, zw
 from vlib.dwgen import Attr, Die, Unit, Forest, write_object, forest_text, C
 
 TAGS = ["DW_TAG_subprogram", "DW_TAG_variable", "DW_TAG_structure_type", "DW_TAG_member", "DW_TAG_namespace",
-        "DW_TAG_lexical_block", "DW_TAG_base_type", "DW_TAG_typedef", "DW_TAG_formal_parameter", "DW_TAG_enumeration_type"]
+        "DW_TAG_lexical_block", "DW_TAG_base_type", "DW_TAG_typedef", "DW_TAG_formal_parameter", "DW_TAG_enumeration_type",
+        # tags that code might single out
+        "DW_TAG_inlined_subroutine", "DW_TAG_GNU_call_site", "DW_TAG_call_site", "DW_TAG_template_type_parameter",
+        "DW_TAG_class_type", "DW_TAG_union_type", "DW_TAG_label", "DW_TAG_imported_declaration", "DW_TAG_pointer_type",
+        "DW_TAG_const_type", "DW_TAG_subroutine_type", "DW_TAG_unspecified_type", "DW_TAG_GNU_call_site_parameter", "DW_TAG_enumerator"]
 
 
 def rand_name(rng):
@@ -21,6 +25,12 @@ def rand_attrs(rng, version, pool):
         ats.append(Attr("DW_AT_name", rng.choice(sforms), rand_name(rng)))
     if rng.random() < 0.3:
         ats.append(Attr("DW_AT_decl_line", rng.choice(["DW_FORM_data1", "DW_FORM_data2", "DW_FORM_udata"]), rng.randint(0, 200)))
+    # vendor attributes (codes above 0xff; two of them share their low byte with DW_AT_name / DW_AT_byte_size)
+    if rng.random() < 0.2:
+        ats.append(Attr("DW_AT_MIPS_linkage_name", "DW_FORM_string", rand_name(rng)))
+    if rng.random() < 0.1:
+        ats.append(Attr(rng.choice(["DW_AT_MIPS_tail_loop_begin", "DW_AT_GNU_all_tail_call_sites", "DW_AT_GNU_macros", "DW_AT_MIPS_loop_unroll_factor"]),
+                        "DW_FORM_data1", rng.randint(0, 9)))
     if rng.random() < 0.2:
         ats.append(Attr("DW_AT_external", "DW_FORM_flag_present" if version >= 4 and rng.random() < 0.7 else "DW_FORM_flag", True))
     if rng.random() < 0.2:
@@ -223,6 +233,16 @@ def shaped_forests():
     ic_b = cu(b"icb", [var(b"b1"), Die("DW_TAG_namespace", [Attr("DW_AT_name", "DW_FORM_string", b"bns")], [var(b"b2")])])
     ic_p = cu(b"icp", [var(b"p1")], 4, True)
     out.append(("import-cu", Forest([cu(b"ica", [var(b"a1"), imp(ic_b), var(b"a2"), imp(ic_p)]), ic_b, ic_p])))
+    # vendor attributes on both ends of a link; a vendor attribute whose code shares its low byte with an inherited standard one;
+    # call sites that get their name through DW_AT_abstract_origin
+    decl = Die("DW_TAG_subprogram", [Attr("DW_AT_name", "DW_FORM_string", b"callee"), Attr("DW_AT_MIPS_linkage_name", "DW_FORM_string", b"_Zdecl"),
+                                      Attr("DW_AT_byte_size", "DW_FORM_data1", 4), Attr("DW_AT_declaration", "DW_FORM_flag", True)])
+    defn = Die("DW_TAG_subprogram", [Attr("DW_AT_specification", "DW_FORM_ref4", decl), Attr("DW_AT_MIPS_linkage_name", "DW_FORM_string", b"_Zdefn"),
+                                      Attr("DW_AT_MIPS_tail_loop_begin", "DW_FORM_data1", 1)])
+    cs1 = Die("DW_TAG_GNU_call_site", [Attr("DW_AT_abstract_origin", "DW_FORM_ref4", decl)])
+    cs2 = Die("DW_TAG_call_site", [Attr("DW_AT_abstract_origin", "DW_FORM_ref4", defn)])
+    inl = Die("DW_TAG_inlined_subroutine", [Attr("DW_AT_abstract_origin", "DW_FORM_ref4", decl)], [cs1])
+    out.append(("vendor-and-call-sites", Forest([cu(b"vc", [decl, defn, Die("DW_TAG_subprogram", [Attr("DW_AT_name", "DW_FORM_string", b"caller")], [inl, cs2])])])))
     # units of every kind: only partial units are left out of the cooked view
     def ku(tag, name, kids):
         return Unit(Die(tag, [Attr("DW_AT_name", "DW_FORM_string", name)], kids, flag=True), 5)
